@@ -168,7 +168,7 @@ func exportsOf(p gnofmt.Package) map[string]bool {
 type normal struct {
 	decls    string
 	imports  []string // sorted "name path"
-	comments []string // sorted, whitespace-normalised
+	comments []string // sorted content lines of all comments (see normComment)
 }
 
 var (
@@ -239,12 +239,23 @@ func walk(b *strings.Builder, v reflect.Value) {
 	}
 }
 
-func normComment(s string) string {
-	lines := strings.Split(s, "\n")
-	for i := range lines {
-		lines[i] = strings.TrimSpace(lines[i])
+// normComment reduces a comment to its non-empty content lines without comment markers and surrounding blanks:
+// "comment placement" and gofmt's doc-comment layout (`//c` -> `// c`, blank `//` lines at the ends, re-indentation of
+// /* */ bodies) are not content; dropped, duplicated or edited comment text is.
+func normComment(s string) []string {
+	switch {
+	case strings.HasPrefix(s, "//"):
+		s = s[2:]
+	case strings.HasPrefix(s, "/*"):
+		s = strings.TrimSuffix(s[2:], "*/")
 	}
-	return strings.Join(lines, "\n")
+	var out []string
+	for _, l := range strings.Split(s, "\n") {
+		if l = strings.TrimSpace(l); l != "" {
+			out = append(out, l)
+		}
+	}
+	return out
 }
 
 func normalize(f *ast.File) normal {
@@ -270,7 +281,7 @@ func normalize(f *ast.File) normal {
 	sort.Strings(n.imports)
 	for _, cg := range f.Comments {
 		for _, c := range cg.List {
-			n.comments = append(n.comments, normComment(c.Text))
+			n.comments = append(n.comments, normComment(c.Text)...)
 		}
 	}
 	sort.Strings(n.comments)
@@ -1188,7 +1199,7 @@ func main() {
 		if r.Quick() && (i%16 != 0 || len(cf.src) > 2<<10) {
 			continue
 		}
-		if r.Thorough() && (i%2 != 0 || len(cf.src) > 6<<10) {
+		if r.Thorough() && len(cf.src) > 8<<10 {
 			continue
 		}
 		sel = append(sel, cf)
